@@ -28,6 +28,10 @@ type c08Case struct {
 type recRun struct {
 	recSpec
 	Count int `json:"count"`
+	// Op: "" = every record is read by the peer as soon as it is written
+	// (lock step); "w" = written only (the records stay in flight); "r" = the
+	// peer reads up to Count records of direction Dir that are in flight.
+	Op string `json:"op,omitempty"`
 }
 
 func plaintext(seed uint64, r recSpec, idx int) []byte {
@@ -42,7 +46,11 @@ func plaintext(seed uint64, r recSpec, idx int) []byte {
 	}
 }
 
+// crossed is set by runC08 when both directions had records in flight at once.
+var crossed bool
+
 func runC08(c *c08Case) (violation string, total int, rotations int, equalPlain bool) {
+	crossed = false
 	p, err := established(c.Cfg)
 	if err != nil {
 		return err.Error(), 0, 0, false
@@ -55,12 +63,44 @@ func runC08(c *c08Case) (violation string, total int, rotations int, equalPlain 
 	headers := map[[18]byte]bool{}
 	bodies := map[[32]byte]map[[32]byte]bool{} // plaintext hash -> set of ciphertext hashes
 	count := [2]int{}
-	for _, run := range c.Runs {
+	type flying struct {
+		wire, pt []byte
+		idx      int
+	}
+	var inFlight [2][]flying
+	deliver := func(dir int, f flying) string {
+		rd := p.R.m
+		if dir == 1 {
+			rd = p.I.m
+		}
+		got, err := safeRead(rd, bytes.NewReader(f.wire))
+		if err != nil {
+			return fmt.Sprintf("dir %d record %d (len %d): the peer failed to decrypt: %v (it had %d records of its own in flight)", dir, f.idx, len(f.pt), err, len(inFlight[1-dir]))
+		}
+		if !bytes.Equal(got, f.pt) {
+			return fmt.Sprintf("dir %d record %d: decrypted to different bytes", dir, f.idx)
+		}
+		return ""
+	}
+	runs := append([]recRun{}, c.Runs...)
+	// whatever is still in flight at the end is read, direction 0 first
+	runs = append(runs, recRun{recSpec: recSpec{Dir: 0}, Op: "r", Count: 1 << 30}, recRun{recSpec: recSpec{Dir: 1}, Op: "r", Count: 1 << 30})
+	for _, run := range runs {
+		if run.Op == "r" {
+			for k := 0; k < run.Count && len(inFlight[run.Dir]) > 0; k++ {
+				f := inFlight[run.Dir][0]
+				inFlight[run.Dir] = inFlight[run.Dir][1:]
+				if v := deliver(run.Dir, f); v != "" {
+					return v, total, rotations, equalPlain
+				}
+			}
+			continue
+		}
 		for k := 0; k < run.Count; k++ {
 			r := run.recSpec
-			w, rd := p.I.m, p.R.m
+			w := p.I.m
 			if r.Dir == 1 {
-				w, rd = p.R.m, p.I.m
+				w = p.R.m
 			}
 			idx := count[r.Dir]
 			count[r.Dir]++
@@ -123,12 +163,23 @@ func runC08(c *c08Case) (violation string, total int, rotations int, equalPlain 
 			if len(p.auth) >= 16 && bytes.Contains(wire, p.auth[:16]) {
 				return fmt.Sprintf("dir %d record %d: auth payload visible on the wire", r.Dir, idx), total, rotations, equalPlain
 			}
-			got, err := safeRead(rd, bytes.NewReader(wire))
-			if err != nil {
-				return fmt.Sprintf("dir %d record %d (len %d): the peer failed to decrypt: %v", r.Dir, idx, len(pt), err), total, rotations, equalPlain
+			f := flying{wire: wire, pt: pt, idx: idx}
+			if run.Op == "w" {
+				inFlight[r.Dir] = append(inFlight[r.Dir], f)
+				if len(inFlight[0]) > 0 && len(inFlight[1]) > 0 {
+					crossed = true
+				}
+				continue
 			}
-			if !bytes.Equal(got, pt) {
-				return fmt.Sprintf("dir %d record %d: decrypted to different bytes", r.Dir, idx), total, rotations, equalPlain
+			// lock step: everything older of this direction is read first
+			for _, o := range inFlight[r.Dir] {
+				if v := deliver(r.Dir, o); v != "" {
+					return v, total, rotations, equalPlain
+				}
+			}
+			inFlight[r.Dir] = nil
+			if v := deliver(r.Dir, f); v != "" {
+				return v, total, rotations, equalPlain
 			}
 		}
 	}
@@ -148,6 +199,9 @@ func genC08(t *rapid.T) *c08Case {
 	c.Cfg.AuthLen = rapid.SampledFrom([]int{16, 64, 400}).Draw(t, "auth")
 	nruns := rapid.IntRange(1, 12).Draw(t, "nruns")
 	budget := stats.Scale(4500, 20000)
+	// decoupled: writes and reads are separate steps, so that each side can
+	// pass a rotation boundary while records of the peer are still unread
+	decoupled := rapid.Bool().Draw(t, "decoupled")
 	for i := 0; i < nruns && budget > 0; i++ {
 		r := recRun{}
 		r.Dir = rapid.IntRange(0, 1).Draw(t, "dir")
@@ -161,6 +215,17 @@ func genC08(t *rapid.T) *c08Case {
 			r.Count = budget
 		}
 		budget -= r.Count
+		if decoupled {
+			switch rapid.IntRange(0, 3).Draw(t, "op") {
+			case 0:
+			case 1, 2:
+				r.Op = "w"
+			default:
+				// a read run consumes no budget
+				budget += r.Count
+				r.Op = "r"
+			}
+		}
 		c.Runs = append(c.Runs, r)
 	}
 	return c
@@ -195,6 +260,12 @@ func TestC08CipherStream(t *testing.T) {
 		}
 		if eq {
 			labels = append(labels, "equal_plaintexts")
+		}
+		if crossed {
+			labels = append(labels, "both_directions_in_flight")
+			if rot > 1 {
+				labels = append(labels, "both_directions_in_flight_rotated")
+			}
 		}
 		nt := rot > 0 && eq
 		rec.Case(nt, fmt.Sprintf("%+v", *c), labels...)
